@@ -106,13 +106,19 @@ def run(ctx):
                 for sv in Q.seed_vectors(rng, n, 6 if quick else 16):
                     cases.append({"fn": "completion", "coefs": [hexf(x) for x in F], "coef_type": "F", "seed": sv, "tol": hexf(1e-10),
                                   "shape": "tiny-extremes/tight-tol", "timeout": 120})
+        # a requested tolerance of exactly zero (int and float): the post-condition cannot be met with a residual of 1e-16
+        for n in (1, 2, 4):
+            F = gen_F(rng, n, 0.6, "generic")
+            for z in (0.0, 0):
+                cases.append({"fn": "completion", "coefs": [hexf(x) for x in F], "coef_type": "F", "tol": hexf(0.0), "tol_int": isinstance(z, int),
+                              "seed": [0] * n, "shape": "zero-tol", "timeout": 120})
         # outside the family: other tolerances, larger n, unbounded F, tiny extremes
         for j in range(80 if quick else 1200):
             n = rng.choice([rng.randint(1, 12), rng.randint(1, 12), 16, 24, 1, 2, 3])
             shape = rng.choice(["sym", "antisym", "generic", "dominant", "decay"])
             norm1 = rng.choice([0.5, 0.9, 0.99, 1.05, 1.5, 3.0])
             F = gen_F(rng, n, norm1, shape, rng.choice([None, 1e-3, 1e-5]))
-            tol = rng.choice([1e-3, 1e-6, 1e-9, 1e-12])
+            tol = rng.choice([1e-3, 1e-6, 1e-9, 1e-12, 0.0])       # tol = 0: a return would have to be exact
             c = {"fn": "completion", "coefs": [hexf(x) for x in F], "coef_type": "F", "tol": hexf(tol), "shape": shape, "timeout": 120}
             if rng.random() < 0.7:
                 c["seed"] = [rng.randint(0, 1) for _ in range(n)]
